@@ -150,16 +150,63 @@ FOUR_D = [("c03", "c03:img_conv"), ("c03", "c03:img_loop"), ("extra", "x:conv_nc
 # level and nested, in both orders.  Every call site must resolve to its own definition.
 FN_NAMES = ["c03f:helper_in_two_blocks_rank", "c03f:helper_in_two_blocks_width", "c03f:helper_top_then_nested",
             "c03f:helper_nested_then_top", "c03f:same_block_two_ranks", "c03f:three_levels_then_top",
-            "c03f:helper_in_two_blocks_rank_symbolic", "c03f:helper_thrice_alternating"]
+            "c03f:helper_in_two_blocks_rank_symbolic", "c03f:helper_thrice_alternating",
+            # one helper, equal shapes, same-kind dtypes of different WIDTH (second seeded regression: function registry keyed
+            # on np.dtype.kind): literal body, astype body, top level and nested in another function
+            "c03f:widths_i32_i8", "c03f:widths_i8_i32", "c03f:widths_i16_i32_i64", "c03f:widths_u8_u32", "c03f:widths_f16_f32",
+            "c03f:widths_cast_i32_i8", "c03f:widths_nested_i32_i8", "c03f:widths_nested_u32_u8", "c03f:widths_mixed_all",
+            "c03f:widths_same_dtype_twice",
+            # vmapped while_loop (batched predicate) closing over traced values (seeded regression: Loop actual inputs
+            # reordered against the body's formal inputs)
+            "c03f:vmap_while_body_closure", "c03f:vmap_while_cond_closure", "c03f:vmap_while_both_closures_int",
+            "c03f:vmap_while_no_closure", "c03f:vmap_while_two_state"]
 _FNP = None
 
 
 def _fn_programs():
     global _FNP, c03f_pool, c03f_block_a, c03f_block_b, c03f_wrap, c03f_ramp, c03f_block_c, c03f_block_d
+    global c03f_bump, c03f_bump_cast, c03f_outer_bump
     if _FNP is not None:
         return _FNP
+    import jax
     import jax.numpy as jnp
+    from jax import lax
     from jax2onnx import onnx_function
+
+    @onnx_function
+    def c03f_bump(x):            # the literals take the dtype of x: the body is dtype specific
+        return x * 3 + 1
+
+    @onnx_function
+    def c03f_bump_cast(x):       # explicit cast to the argument's own dtype
+        # (an explicit float32 intermediate is avoided on purpose: under enable_double_precision the exporter types the
+        #  literal DOUBLE against the FLOAT cast -- the known explicit-float32-under-f64 defect, cf. reduce_sum_dtype_f64)
+        return (x.astype(jnp.int32) * 2).astype(x.dtype) + jnp.asarray(1, dtype=x.dtype)
+
+    @onnx_function
+    def c03f_outer_bump(x):
+        return c03f_bump(x) - 2
+
+    def sds(shape, dt):
+        return jax.ShapeDtypeStruct(shape, dt)
+
+    def vmapped_while(cond_closure, body_closure):
+        def fn(x, step, limit):
+            def one(v):
+                return lax.while_loop((lambda c: c < limit) if cond_closure else (lambda c: c < 10.0),
+                                      (lambda c: c + step) if body_closure else (lambda c: c + 2.0), v)
+            return jax.vmap(one)(x)
+        return fn
+
+    def vmapped_while_int(x, step, limit):
+        def one(v):
+            return lax.while_loop(lambda c: c < limit, lambda c: c + step, v)
+        return jax.vmap(one)(x)
+
+    def vmapped_while_two_state(x, step):
+        def one(v):
+            return lax.while_loop(lambda st: st[0] < 10.0, lambda st: (st[0] + step, st[1] + 1), (v, jnp.int32(0)))
+        return jax.vmap(one)(x)
 
     @onnx_function
     def c03f_pool(x):            # the lowered ReduceSum axis depends on the rank
@@ -198,6 +245,23 @@ def _fn_programs():
         "c03f:three_levels_then_top": (lambda x: c03f_pool(c03f_wrap(x)), [(2, 3, 4, 5)]),
         "c03f:helper_in_two_blocks_rank_symbolic": (lambda x: c03f_block_b(c03f_block_a(x)), [("B", 3, 4)]),
         "c03f:helper_thrice_alternating": (lambda x: c03f_block_a(c03f_block_b(c03f_block_a(x))), [(2, 3, 4, 5)]),
+        "c03f:widths_i32_i8": (lambda a, b: (c03f_bump(a), c03f_bump(b)), [sds((4,), jnp.int32), sds((4,), jnp.int8)]),
+        "c03f:widths_i8_i32": (lambda a, b: (c03f_bump(a), c03f_bump(b)), [sds((4,), jnp.int8), sds((4,), jnp.int32)]),
+        "c03f:widths_i16_i32_i64": (lambda a, b, c: (c03f_bump(a), c03f_bump(b), c03f_bump(c)),
+                                    [sds((4,), jnp.int16), sds((4,), jnp.int32), sds((4,), jnp.int64)]),
+        "c03f:widths_u8_u32": (lambda a, b: (c03f_bump(a), c03f_bump(b)), [sds((4,), jnp.uint8), sds((4,), jnp.uint32)]),
+        "c03f:widths_f16_f32": (lambda a, b: (c03f_bump(a), c03f_bump(b)), [sds((4,), jnp.float16), sds((4,), jnp.float32)]),
+        "c03f:widths_cast_i32_i8": (lambda a, b: (c03f_bump_cast(a), c03f_bump_cast(b)), [sds((2, 3), jnp.int32), sds((2, 3), jnp.int8)]),
+        "c03f:widths_nested_i32_i8": (lambda a, b: (c03f_outer_bump(a), c03f_outer_bump(b)), [sds((4,), jnp.int32), sds((4,), jnp.int8)]),
+        "c03f:widths_nested_u32_u8": (lambda a, b: (c03f_outer_bump(a), c03f_bump(b)), [sds((4,), jnp.uint32), sds((4,), jnp.uint8)]),
+        "c03f:widths_mixed_all": (lambda a, b, c, d: (c03f_bump(a), c03f_bump(b), c03f_outer_bump(c), c03f_bump_cast(d)),
+                                  [sds((4,), jnp.int32), sds((4,), jnp.uint8), sds((4,), jnp.int8), sds((4,), jnp.uint16)]),
+        "c03f:widths_same_dtype_twice": (lambda a, b: (c03f_bump(a), c03f_bump(b)), [sds((4,), jnp.int32), sds((4,), jnp.int32)]),
+        "c03f:vmap_while_body_closure": (vmapped_while(False, True), [sds((4,), jnp.float32), sds((), jnp.float32), sds((), jnp.float32)]),
+        "c03f:vmap_while_cond_closure": (vmapped_while(True, False), [sds((4,), jnp.float32), sds((), jnp.float32), sds((), jnp.float32)]),
+        "c03f:vmap_while_both_closures_int": (vmapped_while_int, [sds((4,), jnp.int32), sds((), jnp.int32), sds((), jnp.int32)]),
+        "c03f:vmap_while_no_closure": (vmapped_while(False, False), [sds((4,), jnp.float32), sds((), jnp.float32), sds((), jnp.float32)]),
+        "c03f:vmap_while_two_state": (vmapped_while_two_state, [sds((3,), jnp.float32), sds((), jnp.float32)]),
     }
     return _FNP
 
@@ -624,7 +688,7 @@ def coq_validate(ctx, name, terms):
         for i, t in enumerate(chunk):
             txt += f"Definition m{off + i} : omodel := {t}.\n"
         txt += "Eval vm_compute in [" + "; ".join(
-            f"(wf_model m{off + i}, table_ok m{off + i}, wf_first_bad m{off + i})" for i in range(len(chunk))) + "].\n"
+            f"(wf_model_typed m{off + i}, table_ok m{off + i}, wf_first_bad_typed m{off + i})" for i in range(len(chunk))) + "].\n"
         return txt
     per = 25
     outs = common.coq_eval_batches(ctx, name, COQ_HEADER, terms, render, per_file=per, jobs=8, timeout=1500)
